@@ -150,6 +150,52 @@ func (o *C11) Check(x *h.Exec, ev *h.Event) {
 				if _, isD := org.(reference.DirectOrigin); isD {
 					continue
 				}
+				// "resolves to exactly the declarations its address denotes": step
+				// by step, not as rendered text (a block labelled "a.b" is one step,
+				// the reference x.a.b has two). Some stored declaration with the
+				// reported range must have an address (absolute or block-local)
+				// whose steps are the first steps of the origin's address.
+				if t.OriginRange == rng && x.S.Quiescent() {
+					if tp0 := pathIdx(t.Path); tp0 >= 0 {
+						var oaddrs []lang.Address
+						for _, other := range origins {
+							if other.OriginRange() != rng {
+								continue
+							}
+							switch v := other.(type) {
+							case reference.LocalOrigin:
+								oaddrs = append(oaddrs, v.Addr)
+							case reference.PathOrigin:
+								oaddrs = append(oaddrs, v.TargetAddr)
+							}
+						}
+						found, compatible := false, false
+						var visit func(ts reference.Targets, depth int)
+						visit = func(ts reference.Targets, depth int) {
+							for _, st := range ts {
+								if st.RangePtr != nil && *st.RangePtr == t.Range {
+									found = true
+									for _, oa := range oaddrs {
+										if stepPrefix(st.Addr, oa) || stepPrefix(st.LocalAddr, oa) {
+											compatible = true
+										}
+									}
+								}
+								if depth < 12 {
+									visit(st.NestedTargets, depth+1)
+								}
+							}
+						}
+						visit(x.S.Paths[tp0].Ctx().ReferenceTargets, 0)
+						if found {
+							x.Cov.Probe("resolution_checked_step_by_step")
+						}
+						if found && !compatible && len(oaddrs) > 0 {
+							x.Report("address-mismatch", "goto_def", "", fmt.Sprintf("origin %s at %v resolved to the declaration at %v, none of whose addresses is a step-by-step prefix of the origin's address", addr, rng, t.Range), &q)
+							return
+						}
+					}
+				}
 				// (ii) block-local names
 				// (a reference written where the constraint declares an address makes
 				// "each.value" an absolute address of its own: that is not the
@@ -315,4 +361,18 @@ func declaredAbsolutely(ts reference.Targets, root string, rng hcl.Range, depth 
 		}
 	}
 	return false
+}
+
+// stepPrefix: every step of decl equals the step of ref at the same place
+// (same kind, same name or key).
+func stepPrefix(decl, ref lang.Address) bool {
+	if len(decl) == 0 || len(decl) > len(ref) {
+		return false
+	}
+	for i := range decl {
+		if fmt.Sprintf("%T|%s", decl[i], decl[i].String()) != fmt.Sprintf("%T|%s", ref[i], ref[i].String()) {
+			return false
+		}
+	}
+	return true
 }
